@@ -4,6 +4,7 @@ package main
 // plus the rule group "layout" (R07.*, R09.default, R01.case for switch tags).
 
 import (
+	"os"
 	"fmt"
 	"go/ast"
 	"go/constant"
@@ -186,7 +187,11 @@ func (p *Pkg) SetModel() *SetModel {
 	if p.set == nil {
 		p.set = p.buildSetModel()
 		if setModelUndecided(p.set) {
-			if sem, err := p.buildSetModelSemantic(); err == nil {
+			// the semantic model tabulates Set over labels: only meaningful when Set
+			// treats the abbreviation as a whole string (see abvWhole)
+			if ok, why := p.abvWhole(p.method("Set"), 0, 0); !ok {
+				p.set.Fallback = "Set inspects parts of the abbreviation instead of comparing it as a whole string (" + why + ")"
+			} else if sem, err := p.buildSetModelSemantic(); err == nil {
 				p.set = sem
 			} else {
 				p.set.Fallback = err.Error() + posSuffix(p, err)
@@ -956,6 +961,22 @@ func (p *Pkg) buildGetModel() *GetModel {
 	sw, abv := outerSwitch(info, fd)
 	if sw == nil || len(params) != 1 || abv != params[0] {
 		add(false, "R07.decode", "*", fd, "no top-level switch on the abbreviation parameter in Get: undecided")
+		// another organisation (lookup tables, descriptors): Get is tabulated per
+		// metric over the codes Set stores, and run on an unknown abbreviation
+		wholeOK, wholeWhy := false, ""
+		if fd != nil && fd.Body != nil && len(params) == 1 {
+			wholeOK, wholeWhy = p.abvWhole(fd, 0, 0)
+			if !wholeOK {
+				add(false, "R09.labels", "whole", fd, "Get inspects parts of the abbreviation instead of comparing it as a whole string, so which strings it accepts cannot be read off a tabulation over the specification's labels: "+wholeWhy+": undecided")
+			}
+		}
+		if fd != nil && fd.Body != nil && len(params) == 1 && wholeOK {
+			gm.AbvParam = params[0]
+			refuses, typed, why := p.getUnknownSemantic(fd)
+			add(refuses, "R09.default", "default", fd, map[bool]string{true: "an unknown abbreviation is refused with a non-nil error", false: why}[refuses])
+			add(typed, "R18.default", "default", fd, why)
+			p.getSemanticFill(gm)
+		}
 		return gm
 	}
 	gm.AbvParam = abv
@@ -1449,6 +1470,9 @@ func (p *Pkg) getSemanticFill(gm *GetModel) {
 		}
 		tbl, deps, err := p.getSemantic(gm, m)
 		if err != nil {
+			if os.Getenv("CVSSCHECK_DEBUG") != "" {
+				println("DBG getSemantic", p.Key, m.Label, err.Error())
+			}
 			continue // the structural obligations already explain the failure
 		}
 		kept := gm.Obls[:0]
@@ -1540,4 +1564,132 @@ func (p *Pkg) getUnknownSemantic(fd *ast.FuncDecl) (refuses, typed bool, why str
 		}
 	}
 	return true, false, "an unknown abbreviation is refused with " + e.String() + ", the documented error is &ErrInvalidMetric{Abv: abv}"
+}
+
+// abvWhole: the abbreviation parameter (#idx) of fd is only ever used as a whole
+// string — as the tag of a string switch, in == / != comparisons, as a map key,
+// as the needle of slices.Index / slices.Contains, inside an error literal, or
+// handed on (as a whole) to package functions that do the same. Only then does
+// "the labels on which the function was tabulated, plus one unknown string"
+// say which abbreviations it accepts: a function that inspects the bytes or
+// the length of the abbreviation (hashing, packing into an integer key) can
+// accept strings no tabulation over the specification's labels would try.
+func (p *Pkg) abvWhole(fd *ast.FuncDecl, idx int, depth int) (bool, string) {
+	if fd == nil || fd.Body == nil {
+		return false, "no body"
+	}
+	if depth > 4 {
+		return false, "call chain too deep"
+	}
+	info := p.Info
+	params := paramObjs(info, fd)
+	if idx >= len(params) || params[idx] == nil {
+		return false, "no such parameter"
+	}
+	tainted := map[types.Object]bool{params[idx]: true}
+	why := ""
+	fail := func(n ast.Node, msg string) {
+		if why == "" {
+			why = fmt.Sprintf("%s (%s)", msg, p.pos(n))
+		}
+	}
+	for changed := true; changed; {
+		changed = false
+		ast.Inspect(fd.Body, func(n ast.Node) bool {
+			if as, ok := n.(*ast.AssignStmt); ok && len(as.Lhs) == len(as.Rhs) {
+				for i, r := range as.Rhs {
+					if o := identObj(info, r); o != nil && tainted[o] {
+						if lo := identObj(info, as.Lhs[i]); lo != nil && !tainted[lo] {
+							tainted[lo] = true
+							changed = true
+						}
+					}
+				}
+			}
+			return true
+		})
+	}
+	var stack []ast.Node
+	ast.Inspect(fd.Body, func(n ast.Node) bool {
+		if n == nil {
+			stack = stack[:len(stack)-1]
+			return false
+		}
+		stack = append(stack, n)
+		id, ok := n.(*ast.Ident)
+		if !ok || !tainted[info.Uses[id]] || len(stack) < 2 {
+			return true
+		}
+		switch par := stack[len(stack)-2].(type) {
+		case *ast.SwitchStmt:
+			if par.Tag == ast.Expr(id) {
+				return true
+			}
+		case *ast.BinaryExpr:
+			if par.Op == token.EQL || par.Op == token.NEQ {
+				return true
+			}
+			fail(par, "the abbreviation is combined with operator "+par.Op.String())
+			return true
+		case *ast.AssignStmt:
+			for _, r := range par.Rhs {
+				if r == ast.Expr(id) {
+					return true // alias, followed above
+				}
+			}
+			fail(par, "the abbreviation variable is reassigned")
+			return true
+		case *ast.KeyValueExpr, *ast.CompositeLit, *ast.ReturnStmt:
+			return true
+		case *ast.IndexExpr:
+			if par.Index == ast.Expr(id) {
+				if tv, ok := info.Types[par.X]; ok {
+					if _, isMap := tv.Type.Underlying().(*types.Map); isMap {
+						return true
+					}
+				}
+			}
+			fail(par, "a byte of the abbreviation is read")
+			return true
+		case *ast.CallExpr:
+			if par.Fun == ast.Expr(id) {
+				return true
+			}
+			fn := calleeOf(info, par)
+			argIdx := -1
+			for i, a := range par.Args {
+				if a == ast.Expr(id) {
+					argIdx = i
+				}
+			}
+			if fn == nil || argIdx < 0 {
+				fail(par, "the abbreviation is passed to "+types.ExprString(par.Fun))
+				return true
+			}
+			if fn.Pkg() == p.P.Types {
+				h := p.FuncObj[fn]
+				if h == nil {
+					fail(par, "the abbreviation is passed to a function without body")
+					return true
+				}
+				if h == fd {
+					return true
+				}
+				if ok, w2 := p.abvWhole(h, argIdx, depth+1); !ok {
+					fail(par, "through "+fn.Name()+": "+w2)
+				}
+				return true
+			}
+			if fn.Pkg() != nil && fn.Pkg().Path() == "slices" && (fn.Name() == "Index" || fn.Name() == "Contains") && argIdx == 1 {
+				return true
+			}
+			fail(par, "the abbreviation is passed to "+fn.FullName())
+			return true
+		case *ast.SelectorExpr:
+			return true // a field or method selector named like the variable
+		}
+		fail(stack[len(stack)-2], fmt.Sprintf("the abbreviation is used in a %T", stack[len(stack)-2]))
+		return true
+	})
+	return why == "", why
 }
